@@ -36,7 +36,8 @@ TRUSTED = [
     "are seen): it is a Section variable of every theorem and is "
     "supplied by the implementation itself in the correspondence run",
     "abstraction done by the harness: cell text -> id, 'empty or n/a' flag, Delay unit spelling class from the schema's "
-    "derivative_units tables, times as integers in microseconds (generated onsets are dyadic or decimal strings with up "
+    "derivative_units tables, times as integers in microseconds, numbers that are not finite as floats ('inf', '1e999', 'Delay/1e400 s') as +-4e18 us with Delay "
+    "amounts adjusted so that sums saturate as float arithmetic does (generated onsets are dyadic or decimal strings with up "
     "to 6 decimals read exactly with fractions.Fraction -- never through a narrow float --, sub-second Delay units "
     "are generated only where no near-collision can occur); assembled cell texts are taken from the implementation's "
     "dataframe_a on the unsorted table (assembly itself is property C06)",
@@ -45,16 +46,22 @@ TRUSTED = [
     "maximal runs of a sorted series; the 1e-9 tolerance is modelled as equality on exact times",
 ]
 ASSUMPTIONS = [
-    "all theorems are relative to arbitrary basic/full/banned/temporal/nonempty (the property is relative to "
-    "string-level validation)",
+    "all theorems are relative to arbitrary TOTAL basic/full/banned/temporal/nonempty (the property is relative to "
+    "string-level validation): C07_file_never_raises is about the file-level plumbing; an exception raised by string "
+    "validation itself is outside the model and covered only by testing through the real validator (cell pools contain "
+    "degenerate but readable texts: '()', '(),()', ',', blanks only, ...; reverting 3e47c8c is reported)",
+    "C07_row_equals_string speaks about the strings the implementation validates (row minus movable Delay groups + each "
+    "moved group); equality with the ASSEMBLED annotation is proved for rows without Delay text and otherwise only under "
+    "the explicit hypothesis delay_split_neutral (a property of string validation), which the oracle tests by comparing "
+    "with HedValidator.validate of the whole assembled row",
     "the correspondence runs the model with cf_fixed = true (the code after fix commit f83491d); "
-    "VERIF_C07_FIXED=1 (default) runs the model of the code with fix-F2/F3/F4 (cf_fix_none/value/mask = true); "
+    "VERIF_C07_FIXED=1 (default) runs the model of the code with fix commits ef31cc7, e4bce88, c357095 (cf_fix_none/value/mask = true); "
     "C07_file_never_raises_refuted (cf_fixed = false) is kept as the record of the repaired defect; likewise the "
     "index-label scrambling of curly-brace references (cf_has_refs = true, C07_labels_refuted) was repaired by fd59dc0 "
     "and the correspondence runs cf_has_refs = false",
     "C07_row_equals_string / shuffle theorems need: no curly-brace scrambling (holds for the code since fd59dc0) and "
     "effective times (onset + Delay) pairwise distinct (no same-time merging); the former 'all onsets numeric' hypothesis "
-    "of C07_row_equals_string is gone with fix-F4; C07_shuffle_invariant (full, temporal issues included) speaks about "
+    "of C07_row_equals_string is gone with fix commit c357095; C07_shuffle_invariant (full, temporal issues included) speaks about "
     "files whose onsets are all numeric, as the property's clause does",
     "implementation-side oracle: testing on generated tables, bounded by the generators (histogram in evidence)",
     "tested only (not representable in the model): the kind of column labels (text vs. the numbers of a headerless "
@@ -68,11 +75,23 @@ ADJ = 2   # 1-based rows + header line
 # /repo carries the fix commit f83491d (unit names looked up case-insensitively in get_conversion_factor):
 # the model is run with cf_fixed = true, and a TypeError for a case-variant spelling is a VIOLATION again.
 UNIT_FIXED = True
-# fix-F2, fix-F3, fix-F4 (split_delay_tags leaves a Delay group in place when it cannot be moved; the onset mask of
+# fix commit ef31cc7, fix commit e4bce88, fix commit c357095 (split_delay_tags leaves a Delay group in place when it cannot be moved; the onset mask of
 # _run_checks is indexed by row label).  VERIF_C07_FIXED=1 (default): the tree under test carries the three repairs, the
 # correspondence uses the repaired model and the oracle demands the full statement; 0: the unrepaired behaviour
 # (for an unpatched copy), with the three finding classes accepted as known findings.
 FIXED = int(os.environ.get("VERIF_C07_FIXED", "1"))
+# C07-F6 (open; repair proposed in /root/work/C07/fix-F6.diff): a cell that holds only blanks is neither skipped nor
+# reported.  0 (default) = the code as it is in /repo: the class is accepted as known finding C07-F6;
+# 1 = a tree carrying fix-F6: blank cells are empty cells (skip flag of the model input) and the class is a violation.
+F6_FIXED = int(os.environ.get("VERIF_C07_F6_FIXED", "1"))   # fix commit 8227060 is in /repo
+# C07-F7 (open; repair proposed in /root/work/C07/fix-F7.diff): a Delay group whose shifted time is NaN (onset -inf with a
+# Delay value that overflows to +inf, or the reverse) is moved to a row without time and validated nowhere.
+F7_FIXED = int(os.environ.get("VERIF_C07_F7_FIXED", "1"))   # fix commit 3db4aba is in /repo
+
+
+def cell_is_empty(txt):
+    """'not cell or cell == "n/a"' of _run_checks / combine_dataframe (with fix-F6: blanks only counts as empty)"""
+    return (not (txt.strip(" ") if F6_FIXED else txt)) or txt == "n/a"
 # /repo also carries fix commit fd59dc0 (_handle_curly_braces_refs assigns positionally): the assembled frame is no
 # longer permuted against its index labels, so the model is run with cf_has_refs = false (no realign); the
 # scrambling stays in the model behind cf_has_refs and in C07_labels_refuted as the record of the repaired defect.
@@ -109,6 +128,9 @@ VALID_CELLS = ["Red", "Blue", "Green", "Item/Sound", "Sensory-event, Visual-pres
 WARN_CELLS = ["Duration/2", "Red-color/Myext"]
 INVALID_CELLS = ["Nonsense", "Red,", "(Red", "Red/", "Red,,Blue", "Label/#", "Blue)", "(Def/Unknown, Onset)", "Red/Blue/x",
                  "Bad tag!"]
+# degenerate but readable cell texts: 'never raises' must hold through the REAL string validator for them
+DEGENERATE_CELLS = ["()", "(())", "(),()", "((),())", "(()),(())", ",", "(,)", " ", "   ", "( )", "(),", ",()", "(),(),()",
+                    "Red,()", "((Red),())", "(( )),(( ))", "\t", ",,", "(Red,),(Red,)", "((),()),((),())"]
 ROWLEVEL_CELLS = ["Red, Red", "(Red, Blue), (Red, Blue)", "Onset", "(Onset)", "Delay/2 s", "(Delay/1 s)",
                   "(Delay/1 s, Red)", "((Delay/1 s,(Red)))", "(Delay/2 s, Delay/3 s, (Red))"]
 TEMPORAL_CELLS = ["(Def/MyDef, Onset)", "(Def/MyDef, Offset)", "(Def/MyDef, Inset)", "(Def/mydef, Offset)",
@@ -197,12 +219,21 @@ def classify_delay(ext):
     return (0, cls, False)
 
 
+# times that are numbers but not finite as floats ('inf', 'Infinity', '1e999', 'Delay/1e400 s') are represented by
+# +-INF_US, beyond every finite generated time; sums with them are made to saturate by describe()
+INF_US = 4 * 10**18
+MODEL_MAX_US = 10**17          # finite times above this are not sent to the model (oracle only)
+
+
 def onset_us(text):
-    """exact value of an onset cell in microseconds (None = not a number).  Decimal texts are read exactly with
-    fractions.Fraction -- generated onsets have at most 6 decimals --, never through float32/float64 rounding."""
+    """exact value of an onset cell in microseconds (None = not a number, +-INF_US = +-infinity as a float).
+    Decimal texts are read exactly with fractions.Fraction -- generated onsets have at most 6 decimals --, never
+    through float32/float64 rounding."""
     f = to_float(text)
-    if f is None or f != f or f in (float("inf"), float("-inf")):
+    if f is None or f != f:
         return None
+    if f in (float("inf"), float("-inf")):
+        return INF_US if f > 0 else -INF_US
     try:
         q = Fraction(text.strip()) * 10**6
         if q.denominator == 1:
@@ -213,11 +244,13 @@ def onset_us(text):
 
 
 def in_range(p):
-    return p == 0 or 1e-6 <= abs(p) <= 1e9
+    return p == 0 or 1e-6 <= abs(p) <= 1e9 or p in (float("inf"), float("-inf"))
 
 
 def rnd_us(p):
-    if p != p or p in (float("inf"), float("-inf")):
+    if p in (float("inf"), float("-inf")):
+        return INF_US if p > 0 else -INF_US
+    if p != p:
         return 0
     return int(round(Fraction(p) * 10**6))
 
@@ -317,7 +350,7 @@ def describe(case, rows, shared=None):
                 texts[txt] = len(texts) + 1
                 iss = hv.run_basic_checks(HedString(txt, sch), allow_placeholders=False)
                 basic[texts[txt]] = [(i["code"], int(i["severity"])) for i in iss]
-            cl.append((colrank[c], texts[txt], 1 if (not txt or txt == "n/a") else 0))
+            cl.append((colrank[c], texts[txt], 1 if cell_is_empty(txt) else 0))
         bad = [colrank[c] for c in cats if str(raw[c].iloc[k]) != "n/a"
                and str(raw[c].iloc[k]) not in SIDECARS[case["sidecar"]][c]["HED"]]
         s = series[k]
@@ -333,7 +366,29 @@ def describe(case, rows, shared=None):
         if has_onset:
             o = str(raw["onset"].iloc[k])
             onset = onset_us(o)
-        out_rows.append({"onset": onset, "cells": cl, "bad": bad, "dtext": dtext, "delays": delays, "series": s})
+            if onset is not None and abs(onset) > MODEL_MAX_US and abs(onset) != INF_US:
+                nomodel = True
+        # float arithmetic with infinities: inf + x = inf, x + inf = inf, inf - inf = nan.  The model adds exact
+        # integers, so the Delay amounts are adjusted to make onset + delay land exactly on +-INF_US.
+        nan_groups = 0
+        if onset is not None:
+            adj_delays = []
+            for num, cls in delays:
+                if num is not None and cls in (0, 1, 3) and (abs(onset) == INF_US or abs(num) == INF_US):
+                    if abs(onset) == INF_US and abs(num) == INF_US and (onset > 0) != (num > 0):
+                        nan_groups += 1          # inf - inf: the group gets a NaN time
+                        if F7_FIXED:
+                            num = None           # with fix-F7 the group stays in its row (model: not convertible)
+                        else:
+                            nomodel = True
+                    elif abs(onset) == INF_US:
+                        num = 0
+                    else:
+                        num = num - onset
+                adj_delays.append((num, cls))
+            delays = adj_delays
+        out_rows.append({"onset": onset, "cells": cl, "bad": bad, "dtext": dtext, "delays": delays, "series": s,
+                         "nan_groups": nan_groups})
     return {"rows": out_rows, "cats": [colrank[c] for c in cats], "texts": {v: k for k, v in texts.items()},
             "basic": dict(basic), "pre": pre, "npost": npost, "colname": {v: k for k, v in colrank.items()},
             "has_onset": has_onset, "hed_cols": hed_cols, "nomodel": nomodel, "header": header, "adj": 2 if header else 1,
@@ -578,13 +633,13 @@ class Expander:
 # the classes of the repaired findings, recognised only when the unrepaired code is checked (VERIF_C07_FIXED=0)
 RETIRED = {
  "C07-F2": {
-  "what": "file validation raises TypeError (None + float in df_util.split_delay_tags) for a Delay value in an accepted time unit that has no conversionFactor (month, year), e.g. '(Delay/2 years,(Red))'; string validation accepts it [repaired by fix-F2; recognised only with VERIF_C07_FIXED=0]"
+  "what": "file validation raises TypeError (None + float in df_util.split_delay_tags) for a Delay value in an accepted time unit that has no conversionFactor (month, year), e.g. '(Delay/2 years,(Red))'; string validation accepts it [repaired by fix commit ef31cc7; recognised only with VERIF_C07_FIXED=0]"
  },
  "C07-F3": {
-  "what": "file validation raises (TypeError/ValueError in df_util.split_delay_tags, which converts Delay values BEFORE any validation) instead of reporting the issue when a Delay value is one that string validation itself rejects (invalid unit 'Delay/2 S', non-numeric 'Delay/abc s', placeholder 'Delay/#') or stands in a row whose onset is n/a [repaired by fix-F3; recognised only with VERIF_C07_FIXED=0]"
+  "what": "file validation raises (TypeError/ValueError in df_util.split_delay_tags, which converts Delay values BEFORE any validation) instead of reporting the issue when a Delay value is one that string validation itself rejects (invalid unit 'Delay/2 S', non-numeric 'Delay/abc s', placeholder 'Delay/#') or stands in a row whose onset is n/a [repaired by fix commit e4bce88; recognised only with VERIF_C07_FIXED=0]"
  },
  "C07-F4": {
-  "what": "with an n/a onset in the file, _run_checks indexes the onset mask of the SORTED split frame (onset_mask.iloc[row_number]) with the original row label: row-level (full-string) errors of some rows are lost and those of others are reported twice, e.g. rows [n/a 'Red, Red'], [2.0 'Blue'] report no TAG_EXPRESSION_REPEATED [repaired by fix-F4; recognised only with VERIF_C07_FIXED=0]"
+  "what": "with an n/a onset in the file, _run_checks indexes the onset mask of the SORTED split frame (onset_mask.iloc[row_number]) with the original row label: row-level (full-string) errors of some rows are lost and those of others are reported twice, e.g. rows [n/a 'Red, Red'], [2.0 'Blue'] report no TAG_EXPRESSION_REPEATED [repaired by fix commit c357095; recognised only with VERIF_C07_FIXED=0]"
  }
 }
 BAD_F2, BAD_F3 = "C07-F2", "C07-F3"     # (C07-F1, the case-variant spelling, was fixed by f83491d)
@@ -609,7 +664,10 @@ def bad_delay_classes(desc):
 def movable(r, num, cls):
     """a Delay group takes effect at onset + delay when both are numbers and the unit converts to seconds;
     otherwise (repaired code) it stays with its row"""
-    return r["onset"] is not None and num is not None and cls in (0, 1, 3)
+    if r["onset"] is not None and num is not None and cls in (0, 1, 3):
+        # inf - inf has no time: such a group can only stay with its row (what fix-F7 does)
+        return not (abs(r["onset"]) == INF_US and abs(num) == INF_US and (r["onset"] > 0) != (num > 0))
+    return False
 
 
 def effective_times(desc):
@@ -650,6 +708,8 @@ def is_sorted(desc):
 
 def finding_class(desc):
     """Known-finding class a labelling/equality failure of this table may belong to (None = none)."""
+    if not F7_FIXED and any(r.get("nan_groups") for r in desc["rows"]):
+        return "C07-F7"      # a Delay group whose shifted time is inf - inf = NaN is validated nowhere
     if REFS_SCRAMBLE and desc["has_onset"] and desc["has_refs"] and not is_sorted(desc):
         return "C07-F5"
     if not FIXED and desc["has_onset"] and any(r["onset"] is None for r in desc["rows"]):
@@ -826,22 +886,36 @@ def oracle(case, tab, exp, res, tag):
         if tied is None or k in tied:
             continue          # same-time merging with another row: not covered by the statement
         got = Counter(code for code, sev, col in by_row.get(k + adj, []) if sev == ERR)
-        want = string_level(exp, r["series"])
-        if desc["has_onset"] and (r["onset"] is not None or not FIXED):
-            if r["onset"] is not None and texp is not None:
-                want["TEMPORAL_TAG_ERROR"] += texp.get(k, 0)
+
+        def expected(text, got=got, k=k, r=r):
+            """(file codes, string-level codes of the annotation [+ temporal issues]) made comparable"""
+            g = Counter(got)
+            want = string_level(exp, text)
+            if desc["has_onset"] and (r["onset"] is not None or not FIXED):
+                if r["onset"] is not None and texp is not None:
+                    want["TEMPORAL_TAG_ERROR"] += texp.get(k, 0)
+                else:
+                    g.pop("TEMPORAL_TAG_ERROR", None)
+                    want.pop("TEMPORAL_TAG_ERROR", None)
             else:
-                got.pop("TEMPORAL_TAG_ERROR", None)
-                want.pop("TEMPORAL_TAG_ERROR", None)
-        else:
-            # no onset column, or (repaired code) a row without a numeric onset: temporal tags have no time
-            from hed.models import HedString
-            hs = HedString(r["series"], exp.sch, exp.dd)
-            want["TEMPORAL_TAG_ERROR"] += sum(1 for tg in hs.get_all_tags()
-                                              if tg.short_base_tag in ("Onset", "Offset", "Inset", "Delay", "Duration"))
+                # no onset column, or (repaired code) a row without a numeric onset: temporal tags have no time
+                from hed.models import HedString
+                hs = HedString(text, exp.sch, exp.dd)
+                want["TEMPORAL_TAG_ERROR"] += sum(1 for tg in hs.get_all_tags()
+                                                  if tg.short_base_tag in ("Onset", "Offset", "Inset", "Delay", "Duration"))
+            return +g, +want
+        got, want = expected(r["series"])
         if got != want:
+            f6 = None
+            live = [desc["texts"][cid] for _cr, cid, skip in r["cells"] if not skip]
+            if not F6_FIXED and len(live) >= 2 and any(not x.strip(" ") for x in live):
+                # a blanks-only cell joined with other cells: the file reports what string validation reports for the
+                # row WITHOUT its blank cells (their empty tag, and whatever that error hides, is the known difference)
+                g2, w2 = expected(", ".join(x for x in live if x.strip(" ")))
+                if g2 == w2:
+                    f6 = "C07-F6"
             res.report("row-equals-string", payload,
-                       f"row {k + adj} '{r['series']}': file reports {dict(got)}, string validation {dict(want)}", fid=fclass)
+                       f"row {k + adj} '{r['series']}': file reports {dict(got)}, string validation {dict(want)}", fid=f6 or fclass)
     # multiset with rows replaced by their identity (the row content incl. onset), for the shuffle clause
     ident = Counter()
     for code, sev, row, col in issues:
@@ -975,6 +1049,27 @@ def fmt_onset(x):
     return repr(float(x))
 
 
+NONFINITE_ONSETS = ["inf", "Infinity", "1e999", "+inf", "INF", "-inf", "-Infinity", "-1e999"]
+
+
+def spell_onset(rng, eighths):
+    """another spelling of the number eighths/8 (exactly the same value)"""
+    v = Fraction(eighths, 8)
+    plain = repr(float(v))
+    form = rng.choice(["plain", "plus", "zeros", "exp", "EXP", "trail"])
+    if form == "plus":
+        return "+" + plain
+    if form == "zeros":
+        return "00" + plain
+    if form == "exp":
+        return repr(float(v * 10)) + "e-1"
+    if form == "EXP":
+        return repr(float(v / 100)) + "E2" if (v / 100 * 10**6).denominator == 1 else plain
+    if form == "trail":
+        return plain + "00"
+    return plain
+
+
 def fine_onsets(rng, n):
     """n distinct onsets as DECIMAL STRINGS that are hard for narrow floats: large magnitudes with tiny differences
     (equal in float32/float16, distinct in float64), many significant digits, values around powers of two and ten.
@@ -1029,6 +1124,9 @@ def delay_cell(rng, kind=None, tag="Delay"):
         return f"({tag}/{rng.choice(['abc s', '#', 'two seconds', '1..5 s'])}{rest}"
     u = unit_spellings(rng, kind)
     amount = rng.choice(["3", "7"]) if kind == "sub" else rng.choice(["0.5", "1", "1.5", "2", "3", "2.0", "1e1"])
+    if kind != "sub" and rng.random() < 0.12:
+        # other spellings of a valid number: sign, leading zero, exponent forms, values that overflow / underflow as floats
+        amount = rng.choice(["+2", "02", "2.50", "1E0", "1.5e0", "1e400", "1E999", "1e-400", "1e300"])
     return f"({tag}/{amount} {u}{rest}"
 
 
@@ -1036,6 +1134,9 @@ def gen_hed_cell(rng, profile):
     x = rng.random()
     if x < 0.12:
         return rng.choice(["n/a", ""]) if profile != "tsv" else "n/a"
+    if x < 0.17 and profile != "valid":
+        c = rng.choice(DEGENERATE_CELLS)
+        return c if (profile != "tsv" or c.strip(" \t")) else "()"      # a .tsv keeps blanks-only cells out of the way
     if x < 0.42:
         return rng.choice(VALID_CELLS)
     if x < 0.47:
@@ -1077,11 +1178,23 @@ def gen_case(rng, tier):
     onsets = rng.sample(range(0, 200), n)     # up to 24.875 s: string order differs from numeric order
     if rng.random() < 0.45:
         onsets.sort()
+    numeric = False
     onset_texts = [fmt_onset(o / 8.0) for o in onsets]
     if profile == "fine":
         onset_texts = fine_onsets(rng, n)
         if rng.random() < 0.3:
             onset_texts.sort(key=Fraction)
+    elif rng.random() < 0.2:
+        # numeric spellings as an input dimension: signs, leading zeros, exponent forms, and numbers that are not
+        # finite as floats (at most one +inf and one -inf spelling, so that the row is not merged with another)
+        onset_texts = [spell_onset(rng, o) for o in onsets]
+        if rng.random() < 0.6:
+            onset_texts[rng.randrange(n)] = rng.choice(NONFINITE_ONSETS[:5])
+        if n > 1 and rng.random() < 0.25:
+            k2 = rng.randrange(n)
+            if to_float(onset_texts[k2]) not in (float("inf"),):
+                onset_texts[k2] = rng.choice(NONFINITE_ONSETS[5:])
+        numeric = True
     na_onset = has_onset and rng.random() < 0.08
     related = rng.random() < (0.6 if profile == "fine" else 0.15)
     rows = []
@@ -1100,6 +1213,14 @@ def gen_case(rng, tier):
                 r.append(rng.choice(["1", "junk", "n/a"]))
         if profile == "tsv":
             r = [x if x != "" else "n/a" for x in r]
+        if numeric and "onset" in cols and to_float(r[cols.index("onset")]) in (float("inf"), float("-inf")) \
+                and rng.random() < 0.7:
+            # something only the row-level / temporal checks see, on the row whose time is not finite
+            if "HED" in cols:
+                r[cols.index("HED")] = rng.choice(["Red, Red", "(Def/MyDef, Offset)", "(Def/MyDef, Inset)", "(Def/MyDef, Onset)",
+                                                   "(Red, Blue), (Red, Blue)", "Blue", "(Delay/1e400 s, (Green, Green))"])
+            elif "cat" in cols:
+                r[cols.index("cat")] = rng.choice(["d", "e", "i", "a"])
         if related and rng.random() < 0.75:      # markers of ONE definition: their time order matters
             if "HED" in cols:
                 r[cols.index("HED")] = rng.choice(["(Def/MyDef, Onset)", "(Def/MyDef, Offset)", "(Def/MyDef, Inset)",
@@ -1284,6 +1405,15 @@ def corpus():
     mk([["1.0", "(Delay/2 s,(Red))", "a", "x"], ["2.0", "Blue", "b", "n/a"]], perms=[[1, 0]])
     mk([["0.0", "(Delay/1 s, Def/MyDef, Onset)", "n/a", "n/a"], ["0.5", "(Def/MyDef, Offset)", "n/a", "n/a"],
         ["2.0", "(Def/MyDef, Offset)", "n/a", "n/a"]], perms=[[2, 1, 0], [1, 0, 2]])
+    # times that are numbers but not finite as floats, on rows that carry row-level / temporal issues
+    mk([["1.0", "(Def/MyDef, Onset)", "n/a", "n/a"], ["Infinity", "Red, Red", "n/a", "n/a"], ["2.0", "Blue", "n/a", "n/a"],
+        ["-inf", "(Def/MyDef, Offset)", "n/a", "n/a"]], perms=[[1, 3, 0, 2], [3, 2, 1, 0]])
+    mk([["+1.5", "(Delay/1e400 s, (Red, Red))", "n/a", "n/a"], ["02.0", "(Delay/1E999 milliseconds, Def/MyDef, Offset)", "n/a", "n/a"],
+        ["2.5e0", "(Delay/1e-400 s, (Green))", "a", "n/a"]], perms=[[2, 1, 0]])
+    # degenerate but readable cells (empty groups, commas only, blanks only), alone and next to ordinary cells
+    mk([["1.0", "(),()", "a", "x"], ["2.0", "()", "b", "n/a"], ["3.0", "(()),(())", "n/a", "n/a"], ["4.0", " ", "a", "n/a"],
+        ["5.0", ",", "n/a", "n/a"], ["6.0", "(,)", "n/a", "x"]], perms=[[5, 4, 3, 2, 1, 0]])
+    mk([["(),()", "a"], ["((),())", "b"], ["(Red,),(Red,)", "n/a"]], cols=("HED", "cat"))
     # onsets late in a recording that differ by 10 microseconds (equal as float32), out of time order
     mk([["5000.00002", "(Def/MyDef, Offset)", "n/a", "n/a"], ["5000.00001", "(Def/MyDef, Onset)", "n/a", "n/a"],
         ["5000.00003", "(Def/MyDef, Offset)", "n/a", "n/a"]], perms=[[1, 0, 2], [2, 1, 0], [0, 2, 1]])
